@@ -615,6 +615,36 @@ def _sdr_show_guards(module_funcs):
     return guards['device_id_string'], guards['entity']
 
 
+def _state_guard(module_funcs):
+    """sdr_show (and the helpers it calls): is every `'…%x…' % states` under a test of `states` against None?"""
+    f = module_funcs.get('sdr_show')
+    if f is None:
+        raise TieBroken('no sdr_show(ipmi, s)')
+    for _, fn in [('sdr_show', f)] + _reachable_funcs(f, module_funcs):
+        par = _parents(fn)
+        for n in ast.walk(fn):
+            if not (isinstance(n, ast.BinOp) and isinstance(n.op, ast.Mod) and isinstance(n.left, ast.Constant)
+                    and isinstance(n.left.value, str) and ('%x' in n.left.value or '%d' in n.left.value)):
+                continue
+            names = [x.id for x in ast.walk(n.right) if isinstance(x, ast.Name)]
+            for var in names:
+                if 'state' not in var:
+                    continue
+                # `if <var> is None: … return` earlier in the same function
+                guarded = any(isinstance(st, ast.If) and _is_none_test(st.test, var, False)
+                              and isinstance(st.body[-1], ast.Return) and st.lineno < n.lineno for st in fn.body)
+                x = n
+                while x in par:
+                    up = par[x]
+                    if isinstance(up, (ast.If, ast.IfExp)) and (
+                            _is_none_test(up.test, var, False) or _is_none_test(up.test, var, True)):
+                        guarded = True
+                    x = up
+                if not guarded:
+                    return False
+    return True
+
+
 CONVERT = 'convert_sensor_raw_to_value'
 
 
@@ -822,6 +852,7 @@ def snapshot():
             raise TieBroken('pyipmi.errors.%s derives from %s, not directly from Exception' % (n, bases))
     idg, entg = _sdr_show_guards(module_funcs)
     handlers = {'link': _link_guard(module_funcs), 'idstring': idg, 'entity': entg,
+                'state': _state_guard(module_funcs),
                 'catch': _conv_catch(cmd_nodes, module_funcs)}
     sdr_classes, sdr_default = _sdr_classes()
     return {'api': api, 'commands': cmds, 'main': main, 'chassis': chassis, 'interfaces': ifaces,
@@ -907,8 +938,8 @@ def render(snap, namespace='PyIpmi.Gen.Cli', header=None):
     h = snap['handlers']
     out.append('/-- the printing handlers -/')
     out.append('def handlers : HandlerShape := {\n  linkNoneGuard := %s\n  idStringGuard := %s\n  entityGuard := %s\n'
-               '  convCatch := [%s] }' % (
-                   _bool(h['link']), _bool(h['idstring']), _bool(h['entity']),
+               '  stateNoneGuard := %s\n  convCatch := [%s] }' % (
+                   _bool(h['link']), _bool(h['idstring']), _bool(h['entity']), _bool(h['state']),
                    ', '.join('(%s, [%s])' % (_lean_str(n), ', '.join(_lean_str(x) for x in l)) for n, l in h['catch'])))
     out.append('')
     out.append('/-- `SdrCommon.from_data`: record type ↦ (class sets `device_id_string`, class sets `entity_id`) -/')
